@@ -31,7 +31,7 @@ RULE = (
     "all zero in ~10 % of the cases, and in ~5 % a dead-ReLU adversary, so that dLA/dW == 0 tensors occur), predictor and adversary as keyword lists (0..2 hidden layers of width 1..6, "
     "optional 'leaky_relu' / 'sigmoid' / 'relu' / nn.Tanh() between) or pre-built nn.Sequential modules "
     "with drawn weights (with or without biases), SGD given as keyword, constructor or instance with "
-    "separate learning rates in [0.05, 1], alpha in [0, 3] (0 included), demographic parity or equalized "
+    "separate learning rates in [0.05, 0.5], alpha in [0, 3] (0 included), demographic parity or equalized "
     "odds. Non-trivial: some predictor weight matrix with >= 2 rows has dLA/dW != 0 (there the sum of "
     "all pairwise row products differs from the Frobenius product). Distinct = distinct canonical JSON."
 )
@@ -39,9 +39,10 @@ ASSUMPTIONS = [
     "torch autograd and the forward pass of the user-visible networks are trusted; the engine's own "
     "gradient bookkeeping, loss choice, encodings, projection and optimiser wiring are not",
     "comparison per tensor: |dW_obs - dW_exp| <= 1e-4*lr*max(max|g_exp|, ||dLP|| + alpha*max|dLA|) + 1e-5*lr + "
-    "2.4e-7*max(|W|,1) + 2*lr*||dLP||*min(1, 1e-6*S/||dLA||) with S = largest ||dLA|| over the predictor's tensors * "
-    "max|x| (float32 cancellation between the three terms, rounding of the stored weights, and the direction "
-    "error of a dLA that is tiny by cancellation); "
+    "2.4e-7*max(|W|,1) + lr*e_g, e_g = e_dLP + 2*||dLP||*min(1, e_dLA/||dLA||) + alpha*e_dLA, where e_x = 8*||x_float32 - "
+    "x_float64|| + 1e-7*||x|| is the measured float32 resolution of the first-principles gradient (float32 "
+    "cancellation between the three terms, rounding of the stored weights, direction error of a dLA that is tiny by "
+    "cancellation); "
     "adversary: 1e-4*max|dU_exp| + 1e-5*lr + 2.4e-7*max(|U|,1); orthogonality |<v,dLA>| <= (1e-4*max(||v||,||g_obs||,alpha*||dLA||,||dLP||) + (1e-5 + 2.4e-7*max|W|/lr)*sqrt(numel))*||dLA||",
     "cases where a non-zero dLA/dW has Frobenius norm < 1e-12 (below float32 resolution of the engine) or a "
     "sigmoid output is within 1e-6 of 1 (float32 rounds it to 1 and the log loss gradient vanishes) are skipped",
@@ -114,9 +115,11 @@ def check(case):
         raise Skip("a sigmoid output is within 1e-6 of 1 (not representable in the engine's float32)")
 
     tags = []
-    # float32 resolution of the engine's dLA: absolute error ~ 1e-6 * (largest dLA tensor norm * max|x|); on a
-    # tensor whose dLA is tiny by cancellation the *direction* dLA/||dLA|| is then only known to dir_err
-    da_scale = max([float(torch.linalg.vector_norm(d)) for d in gAW] + [0.0]) * max(1.0, float(np.abs(X[b2]).max()))
+    # float32 resolution of these gradients, measured: the same first-principles computation in float32
+    # against float64.  On a tensor whose dLA is tiny by cancellation the *direction* dLA/||dLA|| is only
+    # known to dir_err, and the projection inherits that error (tolerances only; never the expected value).
+    gP32, gAW32, _, _, _, _ = AC.reference_gradients(
+        P0, A0, X[b2], Yenc, Aenc, ycol["type"], acol["type"], pass_y, single=True)
     nt = False
     zero_branch = zero_any = False
     for i, (w0, w1, dp, da) in enumerate(zip(W0, W1, gP, gAW)):
@@ -137,8 +140,13 @@ def check(case):
         # alpha*dLA), which can cancel almost completely when dLP is parallel to dLA
         ndp = float(torch.linalg.vector_norm(dp))
         terms = ndp + alpha * float(da.abs().max()) if da.numel() else 0.0
-        dir_err = min(1.0, 1e-6 * da_scale / na) if na > 0.0 else 0.0
-        tol = (1e-4 * lr_p * max(float(g.abs().max()), terms) + 2.0 * lr_p * ndp * dir_err
+        e_da = 8.0 * float(torch.linalg.vector_norm(gAW32[i] - da)) + 1e-7 * na
+        e_dp = 8.0 * float(torch.linalg.vector_norm(gP32[i] - dp)) + 1e-7 * ndp
+        if not (np.isfinite(e_da) and np.isfinite(e_dp)):
+            raise Skip("float32 evaluation of the reference gradients is not finite")
+        dir_err = min(1.0, e_da / na) if na > 0.0 else 0.0
+        e_g = e_dp + 2.0 * ndp * dir_err + alpha * e_da
+        tol = (1e-4 * lr_p * max(float(g.abs().max()), terms) + lr_p * e_g
                + 1e-5 * lr_p + 2.4e-7 * max(wmax, 1.0))
         dev = float((d_obs - d_exp).abs().max())
         if not (dev <= tol):
@@ -155,7 +163,7 @@ def check(case):
             nv = float(torch.linalg.vector_norm(v))
             # the error of g_obs scales with the whole update (incl. the alpha*dLA part), not with ||v||
             ng = max(nv, float(torch.linalg.vector_norm(g_obs)), alpha * na, ndp)
-            bound = (1e-4 * ng + 2.0 * ndp * dir_err + (1e-5 + 2.4e-7 * max(wmax, 1.0) / lr_p) * np.sqrt(w0.numel())) * na
+            bound = nv * e_da + (1e-4 * ng + e_g + (1e-5 + 2.4e-7 * max(wmax, 1.0) / lr_p) * np.sqrt(w0.numel())) * na
             if not (abs(ip) <= bound):
                 raise PropertyViolation(
                     f"predictor tensor {i} shape {tuple(w0.shape)}: <g_obs + alpha*dLA, dLA>_F = {ip!r} "
@@ -237,7 +245,7 @@ def _cases(draw):
         kinds = ["str", "callable", "callable"] + (["instance"] if spec["kind"] == "module" else [])
         return draw(st.sampled_from(kinds))
 
-    lrs = st.sampled_from([0.05, 0.1, 0.25, 0.5, 1.0])
+    lrs = st.sampled_from([0.05, 0.1, 0.25, 0.5])
     return {
         "y": y, "a": a, "n1": n1, "n2": n2, "n_features": nf, "X": X,
         "pred": pred, "adv": adv, "pred_opt": opt(pred), "adv_opt": opt(adv),
